@@ -51,7 +51,7 @@ def relerr(got, want):
 
 def run_row(row, tol=1e-9):
     kind, name = row["kind"], row["f"]
-    fn = getattr(mg, name, None)
+    fn = getattr(mg, name, None) or getattr(mg.nnet.activations, name, None)
     if fn is None:
         return ("missing", f"mygrad.{name}", "not found")
     with warnings.catch_warnings():
